@@ -778,6 +778,24 @@ BoundedSemaphore = Semaphore
 _main_thread_obj = None
 
 
+class _Flag:
+    """A boolean that also answers is_set() (CPython's Thread._started is an Event; code may ask either way)."""
+
+    def __init__(self, v):
+        self._v = bool(v)
+
+    def __bool__(self):
+        return self._v
+
+    def is_set(self):
+        return self._v
+
+    isSet = is_set
+
+    def __repr__(self):
+        return f"_Flag({self._v})"
+
+
 class Thread:
     _initialized = False
 
@@ -787,7 +805,7 @@ class Thread:
         self._kwargs = kwargs or {}
         self._given_name = name
         self._daemonic = bool(daemon) if daemon is not None else False
-        self._started = False
+        self._started = _Flag(False)     # like threading.Thread._started: truthy once started, and has is_set()
         self._finished = False
         self._task = None
         self._initialized = True
@@ -837,7 +855,7 @@ class Thread:
             raise RuntimeError("thread.__init__() not called")
         if self._started:
             raise RuntimeError("threads can only be started once")
-        self._started = True
+        self._started = _Flag(True)
         base = self._given_name or type(self).__name__
         task = s._new_task(s.unique(base))
         task.thread = self
@@ -909,7 +927,7 @@ class Thread:
 class _MainThread(Thread):
     def __init__(self):
         super().__init__(name="MainThread")
-        self._started = True
+        self._started = _Flag(True)
 
 
 def current_thread():
